@@ -93,6 +93,8 @@ def parse_line(line):
             d.update(id=int(t[1]))
         elif k in ("decap", "decap_if", "walk", "peek", "peek_if"):
             d.update(op=k.replace("_if", ""), expr=t[1])
+        elif k == "pause":
+            d.update(ms=int(t[1]))
         elif k == "setreg":
             d.update(reg=int(t[1]), expr=t[2])
         elif k == "xorreg":
@@ -679,15 +681,20 @@ def suite_states(rng, tier):
     }
     for slots in (1, 2, 3):
         for name, trig in triggers.items():
-            for fill in ("full", "one-short", "none"):
+            for fill in ("full", "one-short", "none", "big-top", "big-bottom"):
                 s = Session("st-giveback-%d-%s-%s" % (slots, name, fill))
                 s.strict = False
                 s.dec_new(slots, 6, None)
                 s.prov(6, 0)
                 s.decap("h:a00801" + "0008" + "0800" + "aabbcc")       # first fragment, frag id 1, 3 of 6 bytes
-                k = {"full": slots + 2, "one-short": slots + 1, "none": 0}[fill]
+                # storages of different lengths in one receiver: a longer one on top of / under a shorter one
+                k = {"full": slots + 2, "one-short": slots + 1, "none": 0, "big-top": 1, "big-bottom": 1}[fill]
+                if fill == "big-bottom":
+                    s.prov(16, 0)
                 for _ in range(k):
                     s.prov(6, 0)
+                if fill == "big-top":
+                    s.prov(16, 0)
                 if name == "inter-ok-then-end-badcrc":
                     s.decap("h:300201" + "dd")
                     s.decap("h:700701" + "eeff" + "00000000")
@@ -1357,12 +1364,16 @@ def suite_extlattice(rng, tier):
         [(0x0101 + k, b"") for k in range(40)] + [(0x0042, b"abc")],
         [(0x0042, bytes(range(9)))], [(0x0042, bytes(range(12)))], [(0x0042, bytes(range(100)))], [(0x0042, bytes(range(254)))],
         [(0x0042, bytes(range(255)))], [(0x0301, bytes(4)), (0x0090, bytes(range(9)))], [(0x0090, bytes(range(255)))],
+        # the protocol type names a mandatory extension that is in the chain but not at its end
+        [(0x0042, b"abc"), (0x0105, b"")], [(0x0101, b""), (0x0042, b"abc"), (0x0203, b"\x01\x02")],
+        [(0x0043, b""), (0x0042, b"abc"), (0x0301, bytes(4)), (0x0105, b"")], [(0x0081, b""), (0x0042, b"abc")],
     ]
     mgr = {0x42: ("N", 3), 0x43: ("N", 0), 0x81: ("F", 0), 0x90: ("F", 2), 0x55: ("N", 5)}
     for ch in chains:
         extlen = sum(2 + len(d) for _, d in ch)
         last = ch[-1][0]
-        for pt in sorted(set([0x0800, 0x0600, 0x05FF, 0x0100, 0x00FF, last, ch[0][0], last if last < 0x100 else 0x0081])):
+        for pt in sorted(set([0x0800, 0x0600, 0x05FF, 0x0100, 0x00FF, last, ch[0][0], last if last < 0x100 else 0x0081] +
+                             ([e for e, _ in ch if e < 0x100] if len(ch) <= 4 else []))):
             for lab in (LBL_A6, LBL_BC):
                 for pl in (0, 1, 2, 30):
                     base = 4 + lab.wire_len() + extlen + pl
@@ -1384,10 +1395,9 @@ def suite_extlattice(rng, tier):
                             s.strict = False       # a manager cannot describe more than 255 data bytes
                         elif ch[0][0] == 0x42:
                             mg[0x42] = ("N", len(ch[0][1]))
-                        if pt >= 0x600:
-                            for eid, ed in ch:      # every mandatory extension is used as a non-final one
-                                if eid < 0x100:
-                                    mg[eid] = ("N", min(255, len(ed)))
+                        for eid, ed in (ch if pt >= 0x600 else ch[:-1]):   # mandatory extensions used as non-final ones
+                            if eid < 0x100:
+                                mg[eid] = ("N", min(255, len(ed)))
                         if pt < 0x100 and pt == last:
                             mg[last] = ("F", min(255, len(ch[-1][1])))   # the receiver knows it as final, as the sender uses it
                         mini_transfer(s, rng, bs_gen(n, pl), 2, pt, lab, bl, exts=ch, mgr=mg)
@@ -1489,6 +1499,24 @@ def suite_bigtransfer(rng, tier):
         for _ in range(pl // per + 3):
             j = s.encap_frag(pdu, chain, bs_zero(bl), cout=chain)
             s.decap_if("p:%d" % s.ops[j]["reg"], of=j)
+        j = s.encap_frag(pdu, chain, bs_zero(64), cout=chain)
+        s.decap_if("p:%d" % s.ops[j]["reg"], of=j)
+        out.append(s)
+    # wall-clock time between the fragments of a train (the receiver's memory is built with a non-zero max_delay
+    # argument, which the crate documents as unused): no result may depend on how long the caller waited
+    for n, (maxpdu, ms) in enumerate([(42, 2100)] + ([(43, 3100), (40, 5100)] if tier != "quick" else [])):
+        s = Session("paused%d" % n)
+        pdu = bs_gen(n + 277, 30)
+        s.enc("new")
+        s.dec_new(2, maxpdu, None)
+        s.prov(maxpdu, 0)
+        s.prov(maxpdu, 0)
+        i = s.encap(pdu, 1, 0x0800, LBL_A3, bs_const(1, 20))
+        s.decap_if("p:%d" % s.ops[i]["reg"], of=i)
+        chain = s.ops[i]["reg"]
+        j = s.encap_frag(pdu, chain, bs_zero(12), cout=chain)
+        s.decap_if("p:%d" % s.ops[j]["reg"], of=j)
+        s.pause(ms)
         j = s.encap_frag(pdu, chain, bs_zero(64), cout=chain)
         s.decap_if("p:%d" % s.ops[j]["reg"], of=j)
         out.append(s)
